@@ -441,7 +441,43 @@ type c11outcome struct {
 	progress []gedcom.Progress
 }
 
-var c11limit = 20 * time.Second // per-call time limit of c11run
+const c11defaultLimit = 20 * time.Second
+
+var c11limit = c11defaultLimit // per-call time limit of c11run
+
+// Hang budget. Under a defect that makes (nearly) every call block, 20 s per call adds up to hours and
+// the check prints no verdict. Every call that did not return is counted; after 3 of them the limit of
+// the ordinary calls (a few milliseconds each on a healthy tree) drops to 3 s, after 12 to 500 ms, and
+// the streams stop generating further cases (c11stop): the hangs seen so far are failing inputs already.
+// The large-comparison stream sets its own limit and is not shortened.
+var c11hangs int32
+
+const c11hangBudget = 12
+
+func c11callLimit() time.Duration {
+	if c11limit != c11defaultLimit {
+		return c11limit
+	}
+	switch h := atomic.LoadInt32(&c11hangs); {
+	case h >= c11hangBudget:
+		return 500 * time.Millisecond
+	case h >= 3:
+		return 3 * time.Second
+	}
+	return c11limit
+}
+
+// c11stop: true once the hang budget is spent; the stream named is not continued (counted once).
+func c11stop(c *Ctx, stream string) bool {
+	if atomic.LoadInt32(&c11hangs) < c11hangBudget {
+		return false
+	}
+	k := fmt.Sprintf("stopped:%s not continued after %d calls into Compare that never returned", stream, c11hangBudget)
+	if c.Dist[k] == 0 {
+		c.Count(k)
+	}
+	return true
+}
 
 var c11slowWaits int32 // after a few "never closed" outcomes the wait is shortened (run time under a defect)
 
@@ -486,10 +522,12 @@ func c11run(left, right gedcom.IndividualNodes, opts *gedcom.IndividualNodesComp
 	}
 	done := make(chan gedcom.IndividualComparisons, 1)
 	go func() { done <- left.Compare(right, opts) }()
+	limit := c11callLimit()
 	select {
 	case out.res = <-done:
-	case <-time.After(c11limit):
-		out.problem = fmt.Sprintf("Compare did not return within %v", c11limit)
+	case <-time.After(limit):
+		atomic.AddInt32(&c11hangs, 1)
+		out.problem = fmt.Sprintf("Compare did not return within %v", limit)
 		out.observed = "hang"
 		return out
 	}
@@ -807,6 +845,9 @@ func c11mixed(nl, nr, salt int) *c11case {
 func c11boundary(c *Ctx) {
 	salt := 0
 	small := func(nl, nr int, jobs []int, o *c12opts) {
+		if c11stop(c, "boundary corpus") {
+			return
+		}
 		salt++
 		cs := c11mixed(nl, nr, salt)
 		cs.kind = []string{"boundary:sizes around Jobs (model-tied)"}
@@ -829,6 +870,9 @@ func c11boundary(c *Ctx) {
 		return strings.Join(got, " ")
 	}
 	big := func(nl, nr int, jobs []int) {
+		if c11stop(c, "boundary corpus") {
+			return
+		}
 		salt++
 		cs := c11mixed(nl, nr, salt)
 		l, rt := c11build(cs.left, "", 0), c11build(cs.right, "", 100000)
@@ -893,7 +937,7 @@ func c11boundary(c *Ctx) {
 	// two right records with one pointer. The duplicates sit at varied positions, are otherwise unlike
 	// each other (no score ties), and each case is run repeatedly with several Jobs and GOMAXPROCS values:
 	// the right individual must be in exactly one result and the result must be the sequential one.
-	for q := 0; q < 10; q++ {
+	for q := 0; q < 10 && !c11stop(c, "boundary corpus"); q++ {
 		salt++
 		size := 6 + q
 		cs := c11mixed(size, size, salt)
@@ -928,7 +972,7 @@ func c11boundary(c *Ctx) {
 	// sub-lists: the right (and left) list is a proper sub-list of its document, and the document holds,
 	// OUTSIDE the list, an individual under a pointer of the other side (x%3==1 of c11mixed: same pointer,
 	// same name and dates). Every Left/Right of the result must be an element of the given slices.
-	for q := 0; q < 8; q++ {
+	for q := 0; q < 8 && !c11stop(c, "boundary corpus"); q++ {
 		salt++
 		size := 7 + q
 		cs := c11mixed(size, size, salt)
@@ -977,7 +1021,7 @@ func c11boundary(c *Ctx) {
 		}
 	}
 	// history: the unique identifiers an individual remembers
-	for q := 0; q < 6; q++ {
+	for q := 0; q < 6 && !c11stop(c, "boundary corpus"); q++ {
 		salt++
 		cs := c11mixed(12, 12, salt)
 		l, rt := c11build(cs.left, "", 0), c11build(cs.right, "", 100000)
@@ -1035,7 +1079,7 @@ func c11boundary(c *Ctx) {
 func c11dupPositions(c *Ctx) {
 	r := c.R.Fork("dup-positions")
 	n := c.N(24, 400)
-	for q := 0; q < n; q++ {
+	for q := 0; q < n && !c11stop(c, "duplicated unique id positions"); q++ {
 		J := []int{2, 3, 8, 16, 2, 3}[q%6]
 		i := J - 1 + J*r.Intn(2)
 		if J >= 8 {
@@ -1089,7 +1133,7 @@ func c11cold(c *Ctx) {
 	var lt, rtx string
 	var want string
 	n := 0
-	for rep := 0; rep < reps; rep++ {
+	for rep := 0; rep < reps && !c11stop(c, "cold-cache stress"); rep++ {
 		if rep%20 == 0 { // a new pair of documents every 20 runs
 			n = 10 + r.Intn(31)
 			var lb, rb strings.Builder
@@ -1208,6 +1252,9 @@ func c11large(c *Ctx) {
 	defer func() { c11limit = old }()
 	hangs := 0
 	for _, k := range cases {
+		if c11stop(c, "large comparisons") {
+			break
+		}
 		if hangs >= 2 {
 			c.Count("large:skipped after two hangs")
 			continue
@@ -1345,12 +1392,14 @@ func init() {
 		c.Rule = "pairs of family-graph documents (edited copy: shared / disjoint / shifted pointers, dropped and added people, typos, identical twins, shared unique ids, a duplicated unique id, empty sides; a _UID duplicated among left individuals at varied positions i < j with j % Jobs < i % Jobs, run with those Jobs values) x options (default and random, thresholds incl. 0 and 1) x Jobs in {0,1,2,3,8,16} x GOMAXPROCS in {1,2,16}; every run goes through a delivery check (Compare in its own goroutine with a time limit; in turn no / unbuffered / buffered Notifier drained as gedcom diff does: it must be closed when Compare returns and the progress complete; empty left, empty right, both empty and single individuals included), is checked for validity, and all runs of a case are compared with the sequential one when no scores tie; cold-cache stress: documents whose only matches are _UID matches, decoded afresh for every run, Jobs {2,3,8,16} x GOMAXPROCS {2,16}, each compared with the sequential matching; large comparisons with 999..2100 result rows (one side empty; equal sides matched by _UID or by pointer: 999/1000/1001/1999/2000/2001/2002/2018/2100 certain matches around the channel capacities) under a time limit; lists that are proper sub-lists of their documents; the model is run on the sequential and on permuted arrival orders; distinct = distinct (sequential result, options)"
 		c11boundary(c)
 		n := c.N(300, 6000)
-		for i := 0; i < n; i++ {
+		for i := 0; i < n && !c11stop(c, "random cases"); i++ {
 			c11one(c, i)
 		}
 		c11dupPositions(c)
 		c11cold(c)
 		c11large(c)
-		c11race(c)
+		if !c11stop(c, "race batch") {
+			c11race(c)
+		}
 	}
 }
